@@ -131,7 +131,7 @@ func (pl *planter) apply(s string, kind int) string {
 }
 
 func (pl *planter) want(typ, prop string, scale float64) bool {
-	if !pl.r.Chance(pl.p * scale) {
+	if pl.p < 1 && !pl.r.Chance(pl.p*scale) { // p = 1 (directed corpus): every slot
 		return false
 	}
 	pl.where[typ+"."+prop] = true
